@@ -22,11 +22,20 @@ def plan(tier, seed):
   specs = [{'shard': 'ints-%d' % i, 'part': i, 'parts': 8, 'top': top,
             'sets': 12 if q else 24} for i in range(8)]
   specs += [{'shard': 'keys-%d' % i, 'part': i, 'parts': 6,
-             'top': 60 if q else 200, 'n': 60 if q else 240} for i in range(6)]
+             'top': 60 if q else 200, 'n': 60 if q else 240,
+             'large': [257 + 3 * i, 513 + i] if q else [
+                 257 + i, 300 + 9 * i, 513 + i, 1025 + i, 2049 + i]}
+            for i in range(6)]
   return specs
 
 
 def model_batchgcd(values, extra=None):
+  if len(values) > 150:
+    # same definition, one product: gcd(v, (extra *) prod(distinct) / v)
+    prod = extra if extra else 1
+    for w in set(values):
+      prod *= w
+    return [math.gcd(v, prod // v) for v in values]
   out = []
   for v in values:
     prod = extra if extra else 1
@@ -166,12 +175,30 @@ def run_keys(ctx, spec):
   pool = [rng.prime(b) for b in (64, 64, 96, 128, 256, 256, 512, 512)
           for _ in range(3)]
   sizes = list(range(spec['part'], spec['top'] + 1, spec['parts']))
-  for it in range(spec['n']):
-    size = sizes[it % len(sizes)] if it < len(sizes) else rng.randint(
-        0, spec['top'])
+  large = spec.get('large', [])
+  for it in range(spec['n'] + len(large)):
+    size = large[it - spec['n']] if it >= spec['n'] else sizes[
+        it % len(sizes)] if it < len(sizes) else rng.randint(0, spec['top'])
     if not ctx.want('b%d' % it):
       continue
     ns = []
+    if it >= spec['n']:
+      # batches beyond 256/512/1024 keys: mostly healthy, with duplicates and
+      # shared primes planted at the ends and around the power-of-two marks
+      ns = [rng.prime(64) * rng.prime(64) for _ in range(size)]
+      marks = sorted(set([0, 1, 2, size // 3, size // 2, size - 3, size - 2,
+                          size - 1] + [m + d for m in (
+                              255, 256, 511, 512, 1023, 1024) for d in (0, 1)
+                                       if m + d < size]))
+      a, b = rng.sample(marks, 2)
+      ns[b] = ns[a]                                            # duplicate
+      c, d2 = rng.sample([m for m in marks if m not in (a, b)], 2)
+      sp = rng.choice(pool)
+      ns[c], ns[d2] = sp * rng.prime(64), sp * rng.prime(64)   # shared prime
+      e2 = rng.choice([m for m in marks if m not in (a, b, c, d2)])
+      ns[e2] = ns[a] * rng.prime(64)                           # nested
+      ctx.count('large_key_batches')
+      size = 0
     for _ in range(size):
       k = rng.below(10)
       if k < 4:
@@ -191,7 +218,8 @@ def run_keys(ctx, spec):
             break
         ns.append(c)
     ns = [n for n in ns if n.bit_length() >= 64]
-    rng.shuffle(ns)
+    if it < spec['n']:
+      rng.shuffle(ns)
     keys = [gen.rsa_key(n) for n in ns]
     # CheckGCD
     try:
@@ -276,7 +304,7 @@ def finalize(agg, tier):
   c = agg['counters']
   inc = ['reach counter %s is zero' % k for k in (
       'contract:ExtendedProductTree', 'odd_level_batches',
-      'keys_with_shared_factor', 'n1_large_shared') if not c.get(k)]
+      'keys_with_shared_factor', 'n1_large_shared', 'large_key_batches') if not c.get(k)]
   top = 130 if tier == 'quick' else 520
   if c.get('batch_sizes_seen', 0) < top and not agg['violations']:
     inc.append('fewer batch sizes observed than planned')
